@@ -219,10 +219,45 @@ func runC19(c *Ctx) {
 		// all frames of one call are published in one critical section (shared with C02-D1)
 	}
 
-	c.Rule("C19-D3", "re-read after wake: after receiving from `ready` the consumer calls get() again before it returns", 2)
+	c.Rule("C19-D3", "re-read after wake: once a token was received from `ready`, the consumer calls get() before it returns AND before it blocks again (a token consumed without re-reading strands the packets it announced)", 2)
 	for _, a := range []struct{ short, fn string }{{"sio", "packetQueue.poll"}, {"polling", "pollQueue.poll"}} {
 		fn := p.Fn(a.short, a.fn)
 		recv := fn.Params[0].Name()
+		isGet := callPred(`\(\*` + a.short + `\.` + strings.Split(a.fn, ".")[0] + `\)\.get`)
+		isBlockingWait := func(in ssa.Instruction) bool {
+			switch x := in.(type) {
+			case *ssa.Select:
+				return x.Blocking
+			case *ssa.UnOp:
+				return x.Op == token.ARROW
+			}
+			return false
+		}
+		check := func(from ssa.Instruction, startBlock *ssa.BasicBlock, pos token.Pos) {
+			var first ssa.Instruction = from
+			if startBlock != nil {
+				// start at the head of the case body: emulate "after a pseudo instruction before the block"
+				if isGet(startBlock.Instrs[0]) {
+					c.Ob("C19-D3", a.short+"."+a.fn, pos, true, "get() is the first call of the `<-ready` case")
+					return
+				}
+				first = startBlock.Instrs[0]
+				if isBlockingWait(first) {
+					c.Ob("C19-D3", a.short+"."+a.fn, pos, false, "the `<-ready` case blocks again before calling get()")
+					return
+				}
+			}
+			skip, trail := CanReachExitAvoiding(fn, first, isGet)
+			again, trail2 := CanReachAvoiding(fn, first, isBlockingWait, isGet)
+			switch {
+			case skip:
+				c.Ob("C19-D3", a.short+"."+a.fn, pos, false, "after `<-ready` a path returns without calling get(): "+trailString(p, trail))
+			case again:
+				c.Ob("C19-D3", a.short+"."+a.fn, pos, false, "after a token was taken from `ready` a path blocks again without calling get(): the packets announced by that token wait for an unrelated wake-up or the timeout: "+trailString(p, trail2))
+			default:
+				c.Ob("C19-D3", a.short+"."+a.fn, pos, true, "every path from `<-ready` calls get() before returning or blocking again")
+			}
+		}
 		found := 0
 		for _, st := range SelectStates(fn) {
 			if st.Send || st.Chan != recv+".ready" {
@@ -231,31 +266,20 @@ func runC19(c *Ctx) {
 			found++
 			blks := blocksOfSelectCase(st.Sel, st.Index)
 			if len(blks) == 0 {
-				c.Ob("C19-D3", a.short+"."+a.fn, st.Sel.Pos(), false, "cannot locate the body of the `<-ready` case")
+				// empty case bodies: all cases continue right after the select
+				check(st.Sel, nil, st.Sel.Pos())
 				continue
 			}
 			for _, b := range blks {
-				first := b.Instrs[0]
-				isGet := callPred(`\(\*` + a.short + `\.` + strings.Split(a.fn, ".")[0] + `\)\.get`)
-				ok := isGet(first)
-				if !ok {
-					skip, trail := CanReachExitAvoiding(fn, first, isGet)
-					ok = !skip
-					c.Ob("C19-D3", a.short+"."+a.fn, st.Sel.Pos(), ok, "after `<-ready` a path returns without calling get(): "+trailString(p, trail))
-				} else {
-					c.Ob("C19-D3", a.short+"."+a.fn, st.Sel.Pos(), true, "get() is the first call of the `<-ready` case")
-				}
+				check(nil, b, st.Sel.Pos())
 			}
 		}
-		// plain receive `<-pq.ready` outside a select
 		for _, in := range findInstrs(fn, func(in ssa.Instruction) bool {
 			u, ok := in.(*ssa.UnOp)
 			return ok && u.Op == token.ARROW && Term(u.X) == recv+".ready"
 		}) {
 			found++
-			isGet := callPred(`.*\.get`)
-			skip, trail := CanReachExitAvoiding(fn, in, isGet)
-			c.Ob("C19-D3", a.short+"."+a.fn, in.Pos(), !skip, "after `<-ready` a path returns without calling get(): "+trailString(p, trail))
+			check(in, nil, in.Pos())
 		}
 		if found == 0 {
 			c.Ob("C19-D3", a.short+"."+a.fn, fn.Pos(), false, "poll() never waits on `ready`")
@@ -324,6 +348,30 @@ func runC19(c *Ctx) {
 			c.Ob("C19-D4", "sio.packetQueue.pollAndSend/poll", fn.Pos(), false, "pollAndSend never calls poll")
 		}
 	}
+
+	c.Rule("C19-D6", "drain/close hand-shake: the queue is closed (which wipes it and stops the drainer) only after waitForDrain returned, in both closePacketQueue helpers", 2)
+	for _, fnn := range []string{"serverConn.closePacketQueue", "Manager.closePacketQueue"} {
+		top := p.Fn("sio", fnn)
+		n := 0
+		for _, fn := range WithAnons(top) {
+			cls := CallsTo(Calls(fn), `\(\*sio\.packetQueue\)\.close`)
+			for _, cl := range cls {
+				n++
+				early, trail := CanReachAvoiding(fn, nil, func(in ssa.Instruction) bool { return in == cl.Instr }, callPred(`\(\*sio\.packetQueue\)\.waitForDrain`))
+				same := true
+				for _, w := range CallsTo(Calls(fn), `\(\*sio\.packetQueue\)\.waitForDrain`) {
+					if stripAmp(Term(w.Common().Args[0])) != stripAmp(Term(cl.Common().Args[0])) {
+						same = false
+					}
+				}
+				c.Ob("C19-D6", "sio."+fnn, cl.Pos(), !early && same, "packetQueue.close() is reachable before waitForDrain() of the same queue: packets still queued behind an in-flight Send are wiped instead of sent: "+trailString(p, trail))
+			}
+		}
+		if n == 0 {
+			c.Ob("C19-D6", "sio."+fnn, top.Pos(), false, "closePacketQueue never closes the queue (the drainer goroutine would leak)")
+		}
+	}
+	whoMayCall(c, "C19-D6", `\(\*sio\.packetQueue\)\.close`, []string{"(*sio.serverConn).closePacketQueue", "(*sio.Manager).closePacketQueue"}, true)
 
 	c.Rule("C19-D5", "who may consume: packetQueue.get/poll are called only from poll/pollAndSend; pollQueue.get only from poll and QueuedPackets (a second consumer would steal packets)", 3)
 	whoMayCall(c, "C19-D5", `\(\*sio\.packetQueue\)\.get`, []string{"(*sio.packetQueue).poll"}, true)
